@@ -407,6 +407,8 @@ class Concretiser:
         for p in f.get("importSrcs", f.get("imports", [])):
             out.append('<import src="%s"/>' % p)
         for w in f.get("wxs", []):
+            if w.get("late"):
+                continue          # set through the group API after parsing (semrun.case_post_ops)
             if "src" in w:
                 out.append('<wxs module="%s" src="%s"/>' % (w["n"], w["src"]))
             else:
